@@ -12,16 +12,20 @@ import (
 	"encoding/json"
 	"flag"
 	"fmt"
+	"io"
 	"os"
 	"path/filepath"
 	"runtime"
 	"sort"
+	"strings"
 	"sync"
 	"sync/atomic"
+	"syscall"
 	"time"
 
 	"github.com/piotrnar/gocoin/lib/btc"
 	"github.com/piotrnar/gocoin/lib/chain"
+	"github.com/piotrnar/gocoin/lib/others/memory"
 	"github.com/piotrnar/gocoin/lib/others/vhook"
 	"github.com/piotrnar/gocoin/lib/utxo"
 	"verif/chainkit"
@@ -34,6 +38,80 @@ type Cfg struct {
 	Perturb uint64 `json:"perturb"` // 0 = no perturbation
 	TargetU int64  `json:"target_us"`
 	Aux     bool   `json:"aux"`
+	// Alloc: the UTXO records live in gocoin's recycling allocator (lib/others/memory hooked into utxo.Memory_Malloc /
+	// Memory_Free exactly as client/common/config.go does by default): a freed record's slot is handed out again at once.
+	// The sequential reference always uses the Go heap (where a stale alias of a freed record still reads the old bytes).
+	Alloc bool `json:"alloc,omitempty"`
+}
+
+var goHeapMalloc, goHeapFree = utxo.Memory_Malloc, utxo.Memory_Free
+
+// agedAllocator: the allocator of a node that has been running for a while. A fresh allocator serves every size class from the
+// untouched rest of its current 1 MB page (about 10000 slots) before it ever looks at its free list, so a short scenario would
+// never see a freed slot again; in a running node the pages are full and every allocation pops the most recently freed slot.
+// For every small size class: fill the class's page with live slots (they stand for the rest of the UTXO set), then free a
+// random third of them (the free-list stock, so that the class does not open a new page during the scenario).
+func agedAllocator(seed uint64) *memory.Allocator {
+	a := memory.NewAllocator()
+	hdr, pg, shl, _, _, slots := memory.VerifConsts()
+	g := vlib.NewRng(seed)
+	for class, ss := range slots {
+		if ss > 320 {
+			break
+		}
+		capn := (pg - hdr) / int(ss)
+		size := int(ss) - shl
+		live := make([]*[]byte, 0, capn+16)
+		for i := 0; i < capn; i++ {
+			live = append(live, a.Malloc(size))
+		}
+		for n := 0; n < 16 && a.VerifClassState(class, 1).Cur != 0; n++ {
+			live = append(live, a.Malloc(size))
+		}
+		for i := capn / 3; i > 0; i-- {
+			j := g.Intn(len(live))
+			a.Free(live[j])
+			live[j] = live[len(live)-1]
+			live = live[:len(live)-1]
+		}
+	}
+	return a
+}
+
+func useAllocator(on bool, seed uint64) {
+	if on {
+		a := agedAllocator(seed)
+		utxo.Memory_Malloc, utxo.Memory_Free = a.Malloc, a.Free
+	} else {
+		utxo.Memory_Malloc, utxo.Memory_Free = goHeapMalloc, goHeapFree
+	}
+}
+
+// undoDigest: the undo file of the tip (what UndoBlockTxs would restore), its records sorted (CommitBlockTxs writes them in
+// map order). "" = no such file. It is part of the observable result of a block: nothing reads it until the block is
+// disconnected, so a schedule-dependent undo file shows in the UTXO dump only after a reorg - here it shows at once.
+func undoDigest(dir string, height uint32) string {
+	b, err := os.ReadFile(fmt.Sprint(dir, "undo", string(os.PathSeparator), height))
+	if err != nil {
+		return ""
+	}
+	if len(b) < 32 {
+		return fmt.Sprintf("short(%d)", len(b))
+	}
+	lines := []string{hex.EncodeToString(b[:32])}
+	off := 32
+	for off < len(b) {
+		le, n := btc.VLen(b[off:])
+		off += n
+		if n == 0 || le < 0 || off+le > len(b) {
+			lines = append(lines, fmt.Sprintf("garbage at %d", off))
+			break
+		}
+		lines = append(lines, hex.EncodeToString(b[off:off+le]))
+		off += le
+	}
+	sort.Strings(lines[1:])
+	return chainkit.DumpHash(lines)
 }
 
 type Snap struct {
@@ -135,6 +213,11 @@ func (rc *recorder) hook(name string) {
 	if rc.onPoint != nil {
 		rc.onPoint(name)
 	}
+	rc.perturb()
+}
+
+// perturb: the seeded yield / sleep of one schedule-perturbation point
+func (rc *recorder) perturb() {
 	if rc.seed != 0 {
 		n := atomic.AddUint64(&rc.ctr, 1)
 		h := mix(rc.seed, n)
@@ -149,6 +232,26 @@ func (rc *recorder) hook(name string) {
 			}
 		}
 	}
+}
+
+// slowUndoWriter makes the serialisation calls of the undo-writer goroutine of CommitBlockTxs perturbation points too
+// (utxo.Serialize is a package-level function variable, and the undo writer is its only caller that passes a buffer): without
+// it every point lies in the delete / insert workers and in the main goroutine, i.e. the schedules explored would all have a
+// FAST undo writer. Returns the function that restores utxo.Serialize.
+func (rc *recorder) slowUndoWriter() func() {
+	orig := utxo.Serialize
+	var first int32
+	utxo.Serialize = func(rec *utxo.UtxoRec, buf []byte) *[]byte {
+		if buf != nil {
+			if rc.seed != 0 && atomic.AddInt32(&first, 1)%64 == 1 {
+				// a writer that starts late: the workers of UnspentDB.commit get ahead of it
+				if os.Getenv("C11_SLOW") != "" { time.Sleep(20 * time.Millisecond) }; time.Sleep(time.Duration(mix(rc.seed, uint64(atomic.LoadUint64(&rc.ctr)))%1500) * time.Microsecond)
+			}
+			rc.perturb()
+		}
+		return orig(rec, buf)
+	}
+	return func() { utxo.Serialize = orig }
 }
 
 func (rc *recorder) addSnap(s Snap) {
@@ -171,6 +274,11 @@ func readSnapshot(path string) (s Snap) {
 		s.Err = "unreadable: " + err.Error()
 		return
 	}
+	return parseSnapshot(b)
+}
+
+// parseSnapshot: the bytes of a snapshot file (as they reached the disk)
+func parseSnapshot(b []byte) (s Snap) {
 	if len(b) < 48 {
 		s.Err = fmt.Sprintf("short file (%d bytes)", len(b))
 		return
@@ -272,6 +380,9 @@ func execOp(k *chainkit.Kit, op *Op, rc *recorder, reference bool) (res Res) {
 	}
 	res.Tip, res.Height = k.Tip()
 	res.Dump = chainkit.DumpHash(chainkit.UtxoDump(k.Ch.Unspent))
+	if op.Kind == "block" {
+		res.Undo = undoDigest(k.Dir, res.Height)
+	}
 	return
 }
 
@@ -307,7 +418,7 @@ func kitOpts(gt uint32, compr bool) chainkit.Opts {
 // scratch pool under comp_pool_mutex); blocks carry > 32 new transactions (several do_add workers of
 // UnspentDB.commit serialize at the same time) which partially spend earlier fan-outs (do_del workers
 // re-serialize the remaining outputs) while the undo goroutine serializes the spent records.
-func genScenario(seed uint64, thorough bool, gt uint32, compr bool) (*scenario, []CommitCase) {
+func genScenario(seed uint64, thorough bool, gt uint32, compr bool, recycle bool) (*scenario, []CommitCase) {
 	runtime.GOMAXPROCS(1)
 	vhook.Set(nil)
 	utxo.UTXO_WRITING_TIME_TARGET = 0
@@ -321,6 +432,14 @@ func genScenario(seed uint64, thorough bool, gt uint32, compr bool) (*scenario, 
 	var cases []CommitCase
 	ge := newGen(k, g.Fork())
 	ge.cheap = compr
+	// unsigned outputs carry their own bytes (0 = plain OP_TRUE): a record that comes back from undo data, or goes into a
+	// snapshot, with the bytes of ANOTHER record then differs in the dump
+	ge.tagLen = g.Pick(0, 8, 20, 33)
+	if recycle {
+		// records of one shape (same allocator size class), spent whole and re-created by every block
+		sc.name = "recycle"
+		ge.tagLen = g.Pick(20, 21, 32, 33, 34, 60)
+	}
 	if compr {
 		sc.name = "compr"
 		if !k.Ch.Unspent.ComprssedUTXO {
@@ -383,6 +502,16 @@ func genScenario(seed uint64, thorough bool, gt uint32, compr bool) (*scenario, 
 		kinds = []string{"valid", "valid", "valid", "side", "valid", "badsig", "sidebad", "valid"}
 		fixed = []string{"valid", "valid", "valid", "side", "valid", "sidebad", "valid"}
 	}
+	if recycle {
+		// "churn": a block that spends many whole records and creates as many of the same shape (the first one fans out);
+		// "side": the tip (a churn block) is disconnected - its undo data is applied and stays visible in the set
+		rounds = 11
+		if thorough {
+			rounds = 30
+		}
+		kinds = []string{"churn", "churn", "churn", "side", "churn", "sidebad", "valid"}
+		fixed = []string{"churn", "churn", "churn", "side", "churn", "churn", "side", "churn", "sidebad", "churn", "side"}
+	}
 	for round := 0; round < rounds; round++ {
 		ge.refresh()
 		if compr {
@@ -436,9 +565,16 @@ func genScenario(seed uint64, thorough bool, gt uint32, compr bool) (*scenario, 
 			sc.hist["block:malformed"]++
 			cases = append(cases, CommitCase{Note: "malformed", Verdict: r.Verdict, Early: -1})
 		default:
-			txs, fees, note := ge.blockTxs(kind, ntx, maxin)
+			var txs []*btc.Tx
+			var fees uint64
+			var note string
+			if kind == "churn" {
+				txs, fees, note = ge.churnTxs(50 + g.Intn(100))
+			} else {
+				txs, fees, note = ge.blockTxs(kind, ntx, maxin)
+			}
 			spec := chainkit.BlockSpec{Txs: txs, Fees: fees}
-			if kind != "valid" {
+			if kind != "valid" && kind != "churn" {
 				spec.Fees = 0
 			}
 			r := do(Op{Kind: "block", Raw: k.Build(spec), Note: note})
@@ -456,7 +592,7 @@ func genScenario(seed uint64, thorough bool, gt uint32, compr bool) (*scenario, 
 			}
 			cc.Bad = ge.lastBad
 			switch kind {
-			case "valid", "badsig":
+			case "valid", "badsig", "churn":
 				cc.Model = true
 			case "dblspend", "unknown":
 				cc.Model = true
@@ -492,12 +628,15 @@ func replay(sc *scenario, cfg Cfg, out *WorkerOut) {
 	defer func() { out.Timing = append(out.Timing, fmt.Sprintf("%s %.1fs", cfg.Name, time.Since(t0).Seconds())) }()
 	runtime.GOMAXPROCS(cfg.Procs)
 	utxo.UTXO_WRITING_TIME_TARGET = time.Duration(cfg.TargetU) * time.Microsecond
+	useAllocator(cfg.Alloc, cfg.Perturb)
+	defer useAllocator(false, 0)
 	k, err := chainkit.New(kitOpts(sc.gt, sc.compr), vlib.NewRng(1))
 	if err != nil {
 		panic(err)
 	}
 	rc := &recorder{seed: cfg.Perturb, dir: k.Dir, cfg: cfg.Name, want: sc.want()}
 	vhook.Set(rc.hook)
+	defer rc.slowUndoWriter()()
 	rp := Replay{Cfg: cfg}
 	stop := make(chan bool)
 	var auxwg sync.WaitGroup
@@ -663,6 +802,149 @@ func directedResave(seed uint64, gt uint32, out *WorkerOut) {
 	}
 }
 
+// ------------------------------------------------------------------------------------ directed: big set, slow disk
+
+// directedBigSnap: a snapshot of MANY chunks written to a disk that is slower than the serialiser. save() hands its ~64 KB
+// chunks to the file goroutine through a bounded channel precisely so that it never waits for the disk; the set here needs more
+// chunks than any plausible channel capacity (several hundred KB per record is legal: big output scripts), and the temporary file
+// of the snapshot is a FIFO whose reader stalls (seeded: at the start and once more later), so that the file goroutine sits inside
+// a Write while save() runs as far ahead as the channel lets it. Every byte that reached the "disk" is then parsed and compared
+// with the unspent set of the block named in the header. Under the race detector the same run shows any chunk buffer that the
+// serialiser touches again while the file goroutine still owns it.
+func directedBigSnap(seed uint64, gt uint32, out *WorkerOut) {
+	runtime.GOMAXPROCS(4)
+	vhook.Set(nil)
+	utxo.UTXO_WRITING_TIME_TARGET = 0 // the unthrottled writer (what HurryUp and Close select)
+	g := vlib.NewRng(seed ^ 0xB165A9)
+	k, err := chainkit.New(chainkit.Opts{GenesisTime: gt}, g.Fork())
+	if err != nil {
+		panic(err)
+	}
+	ge := newGen(k, g.Fork())
+	for i := 0; i < 103; i++ {
+		k.MustExtend(nil, 0)
+	}
+	ge.refresh()
+	// records of 1..12 KB: a chunk is sent as soon as it holds 64 KB, so it holds less than 64+12 KB and the snapshot needs
+	// at least total/(76 KB) chunks whatever the map order - 104..140 here
+	const maxRec = 12000
+	minChunks := 104 + g.Intn(37)
+	want := minChunks * (0x10000 + maxRec + 100)
+	total, nrec := 0, 0
+	cur := ge.take(&ge.coins, 1, false)
+	for total < want && len(cur) == 1 {
+		var txs []*btc.Tx
+		var fees uint64
+		blk := 0
+		for blk < 900000 && total < want && len(cur) == 1 {
+			size := 1000 + g.Intn(maxRec-1200)
+			if blk+size > 950000 {
+				break
+			}
+			var outs []chainkit.OutSpec
+			left := size
+			for left > 0 {
+				n := 500 + g.Intn(4000)
+				if n > left {
+					n = left
+				}
+				left -= n
+				outs = append(outs, chainkit.OutSpec{Value: 600, Script: append([]byte{0x51}, g.Bytes(n)...)})
+			}
+			outs = append([]chainkit.OutSpec{{Value: cur[0].Value - uint64(len(outs))*600 - 1000, Script: tagScript(g, 20)}}, outs...)
+			tx := chainkit.BuildTx(1, cur, nil, outs, 0)
+			fees += 1000
+			txs = append(txs, tx)
+			_, h := k.Tip()
+			cur = []*chainkit.Coin{ge.outCoins(tx, h+1)[0]}
+			blk += size
+			total += size
+			nrec++
+		}
+		k.MustExtend(txs, fees)
+	}
+	tip, h := k.Tip()
+	dump := chainkit.DumpHash(chainkit.UtxoDump(k.Ch.Unspent))
+	rc := &recorder{dir: k.Dir, cfg: "directed-bigsnap", want: map[string]Res{tip: {Tip: tip, Height: h, Dump: dump}}}
+	rp := Replay{Cfg: Cfg{Name: "directed-bigsnap", Procs: 4}}
+	out.Hist["directed:bigsnap"]++
+	out.Hist[fmt.Sprintf("directed:bigsnap:chunks>=%d", minChunks/10*10)]++
+	out.Hist["directed:bigsnap:records"] += nrec
+	raw, _ := hex.DecodeString(tip)
+	fifo := k.Dir + btc.NewUint256(raw).String() + ".db.tmp"
+	if e := syscall.Mkfifo(fifo, 0600); e != nil {
+		out.Hist["directed:bigsnap:no-fifo"]++
+		k.Close()
+		return
+	}
+	type result struct {
+		data []byte
+		err  error
+	}
+	done := make(chan result, 1)
+	stall1 := time.Duration(150+g.Intn(250)) * time.Millisecond
+	stallAt := total/4 + g.Intn(total/2)
+	stall2 := time.Duration(50+g.Intn(150)) * time.Millisecond
+	go func() {
+		f, e := os.Open(fifo) // returns when the file goroutine has opened its end
+		if e != nil {
+			done <- result{err: e}
+			return
+		}
+		defer f.Close()
+		time.Sleep(stall1)
+		var data []byte
+		buf := make([]byte, 1<<16)
+		stalled := false
+		for {
+			n, e := f.Read(buf)
+			data = append(data, buf[:n]...)
+			if e != nil {
+				if e != io.EOF {
+					done <- result{data: data, err: e}
+					return
+				}
+				break
+			}
+			if !stalled && len(data) >= stallAt {
+				stalled = true
+				time.Sleep(stall2)
+			}
+		}
+		done <- result{data: data}
+	}()
+	vhook.Set(func(name string) { rc.ev(name) })
+	k.Ch.Idle() // the snapshot
+	var res result
+	select {
+	case res = <-done:
+	case <-time.After(60 * time.Second):
+		res.err = fmt.Errorf("the snapshot was not completed within 60 s")
+	}
+	waitSaved(k.Ch.Unspent)
+	vhook.Set(nil)
+	var s Snap
+	if res.err != nil {
+		s.Err = "slow disk: " + res.err.Error()
+	} else {
+		s = parseSnapshot(res.data)
+	}
+	s.Where = "slow-disk"
+	rc.addSnap(s)
+	os.Remove(k.Dir + "UTXO.db") // the FIFO, renamed
+	os.Remove(fifo)
+	k.Close()
+	rp.Events = rc.events
+	for _, e := range rc.events {
+		if e == "utxo.save:begin" {
+			rp.Saves++
+		}
+	}
+	rp.Snaps = len(rc.snaps)
+	out.Snaps = append(out.Snaps, rc.snaps...)
+	out.Replays = append(out.Replays, rp)
+}
+
 // ------------------------------------------------------------------------------------ directed: os.Create of the snapshot file fails
 
 // directedCreateFail makes os.Create(<tip hash>.db.tmp) of one snapshot fail (a DIRECTORY of that name is put into the data
@@ -764,7 +1046,7 @@ func workerMain(args []string) {
 	seed := fs.Uint64("seed", 1, "")
 	tier := fs.String("tier", "quick", "")
 	outp := fs.String("out", "", "")
-	only := fs.String("only", "", "run only this part: chain | resave | compr | createfail")
+	only := fs.String("only", "", "run only this part: chain | resave | compr | createfail | recycle | bigsnap")
 	shard := fs.Int("shard", 0, "")
 	fs.Parse(args)
 	out := &WorkerOut{Seed: *seed, Hist: map[string]int{}}
@@ -776,21 +1058,37 @@ func workerMain(args []string) {
 		os.WriteFile(*outp, b, 0644)
 	}()
 	thorough := *tier == "thorough"
+	part := func(name string) bool { // -only takes a comma-separated list
+		if *only == "" {
+			return true
+		}
+		for _, p := range strings.Split(*only, ",") {
+			if p == name {
+				return true
+			}
+		}
+		return false
+	}
 	gt := uint32(time.Now().Unix()) - 400*24*3600
 	gt -= gt % 600
-	if *only == "" || *only == "resave" {
+	if part("resave") {
 		t0 := time.Now()
 		directedResave(*seed, gt, out)
 		out.Timing = append(out.Timing, fmt.Sprintf("resave %.1fs", time.Since(t0).Seconds()))
 	}
-	if *only == "" || *only == "createfail" {
+	if part("createfail") {
 		t0 := time.Now()
 		directedCreateFail(*seed, gt, out)
 		out.Timing = append(out.Timing, fmt.Sprintf("createfail %.1fs", time.Since(t0).Seconds()))
 	}
-	if *only == "" || *only == "chain" {
+	if part("bigsnap") {
 		t0 := time.Now()
-		sc, cases := genScenario(mix(*seed, uint64(*shard)+1), thorough, gt, false)
+		directedBigSnap(*seed+uint64(*shard)*7919, gt, out)
+		out.Timing = append(out.Timing, fmt.Sprintf("bigsnap %.1fs", time.Since(t0).Seconds()))
+	}
+	if part("chain") {
+		t0 := time.Now()
+		sc, cases := genScenario(mix(*seed, uint64(*shard)+1), thorough, gt, false, false)
 		out.Timing = append(out.Timing, fmt.Sprintf("gen %.1fs", time.Since(t0).Seconds()))
 		out.Scenario = sc.name
 		out.Ref = sc.ref
@@ -814,15 +1112,48 @@ func workerMain(args []string) {
 		for i := 0; i < n; i++ {
 			cfg := Cfg{Procs: procs[i%len(procs)], Perturb: g.U64() | 1, Aux: i%2 == 1 || i >= 4 || *shard%2 == 1}
 			cfg.TargetU = int64(g.Pick(0, 2000, 20000, 200000))
-			cfg.Name = fmt.Sprintf("r%d-p%d-t%d-aux%v", i, cfg.Procs, cfg.TargetU, cfg.Aux)
+			cfg.Alloc = i%3 == 2
+			cfg.Name = fmt.Sprintf("r%d-p%d-t%d-aux%v-alloc%v", i, cfg.Procs, cfg.TargetU, cfg.Aux, cfg.Alloc)
 			replay(sc, cfg, out)
 			out.Hist[fmt.Sprintf("replay:procs=%d", cfg.Procs)]++
 		}
 	}
-	if *only == "" || *only == "compr" {
+	if part("recycle") {
+		// the client's default memory configuration: UTXO records in the recycling allocator; blocks that free and allocate
+		// many records of one size class while the undo goroutine serializes the spent ones; reorgs apply the undo data
+		t0 := time.Now()
+		sc, cases := genScenario(mix(*seed, 2000+uint64(*shard)), thorough, gt, false, true)
+		out.Timing = append(out.Timing, fmt.Sprintf("recycle-gen %.1fs", time.Since(t0).Seconds()))
+		if out.Scenario == "" {
+			out.Scenario = sc.name
+			out.Ref = sc.ref
+			out.Commit = cases
+			for _, op := range sc.ops {
+				out.Ops = append(out.Ops, op.Kind+" "+op.Note)
+			}
+		}
+		for k, v := range sc.hist {
+			out.Hist[k] += v
+		}
+		g := vlib.NewRng(mix(*seed, 2077+uint64(*shard)))
+		procs := []int{4, 16, 2, 8}
+		n := 4
+		if thorough {
+			procs = []int{2, 4, 8, 16, 3, 12, 6, 5}
+			n = 10
+		}
+		for i := 0; i < n; i++ {
+			cfg := Cfg{Procs: procs[i%len(procs)], Perturb: g.U64() | 1, Aux: i%3 == 2, Alloc: true}
+			cfg.TargetU = int64(g.Pick(0, 2000, 20000))
+			cfg.Name = fmt.Sprintf("a%d-p%d-t%d-aux%v-alloc", i, cfg.Procs, cfg.TargetU, cfg.Aux)
+			replay(sc, cfg, out)
+			out.Hist[fmt.Sprintf("replay-recycle:procs=%d", cfg.Procs)]++
+		}
+	}
+	if part("compr") {
 		// compressed-records mode: SerializeC's shared scratch pool with several serializations in flight
 		t0 := time.Now()
-		sc, _ := genScenario(mix(*seed, 1000+uint64(*shard)), thorough, gt, true)
+		sc, _ := genScenario(mix(*seed, 1000+uint64(*shard)), thorough, gt, true, false)
 		out.Timing = append(out.Timing, fmt.Sprintf("compr-gen %.1fs", time.Since(t0).Seconds()))
 		if out.Scenario == "" {
 			out.Scenario = sc.name
